@@ -208,6 +208,9 @@ func genFamily(r *Rng, fam string) []byte {
 			// ten or more footnotes, one of them referenced ten or more times: indexes and
 			// reference counts with two digits
 			k := r.Range(10, 13)
+			if r.Split("many-footnotes").Chance(1, 3) {
+				k = pick(r.Split("many-footnotes-k"), []int{31, 32, 33, 34, 40, 64, 65, 70, 100, 101, 130}) // past 32, 64, 100, 128
+			}
 			many := r.Intn(k)
 			for i := 0; i < k; i++ {
 				fmt.Fprintf(&b, "%s[^n%d] ", word(r), i)
@@ -299,6 +302,11 @@ func genFamily(r *Rng, fam string) []byte {
 				case 0:
 					as = append(as, fmt.Sprintf("%s=%s", n, pick(r, words[:11])))
 				case 1:
+					if r.Split("attr-escapes").Chance(1, 2) {
+						// quoted values with backslash escapes (the value has to be unescaped somewhere)
+						as = append(as, fmt.Sprintf("%s=\"say \\\"%s\\\" %s\\\\ twice\"", n, word(r), word(r)))
+						break
+					}
 					as = append(as, fmt.Sprintf("%s=\"%s &amp; <%d>\"", n, word(r), r.Intn(9)))
 				case 2:
 					as = append(as, pick(r, []string{"#i" + pick(r, words[:8]), ".k" + pick(r, words[:8])}))
@@ -342,6 +350,11 @@ func genFamily(r *Rng, fam string) []byte {
 		opts := []string{"*%s* **%s** ***x*** _a_ __b__\n", "*%s **%s* x**\n", "**%s*%s\n", "_%s_%s_ *a*b*\n", "***%s** %s*\n"}
 		fmt.Fprintf(&b, pick(r, opts), word(r), word(r))
 	case "html":
+		if rm := r.Split("multi-line-tags"); rm.Chance(1, 4) {
+			// inline tags, comments, processing instructions and CDATA that continue on the next line
+			fmt.Fprintf(&b, "%s <a\nhref=\"/%s\"\ntitle='%s'>x</a> <!-- c\n%s --> <?p\n%s?> <![CDATA[\n%s]]> </span\n>\n", word(rm), word(rm), word(rm), word(rm), word(rm), word(rm))
+			break
+		}
 		if r.Chance(1, 2) {
 			// HTML blocks and inline tags with tag names in every spelling: a complete tag alone on
 			// its line, a tag followed by text, closing tags, tags with attributes
@@ -697,8 +710,12 @@ func genHeadingDoc(r *Rng) []byte {
 			n = rs.Range(3, 6)
 		}
 	}
+	fnRefs := r.Split("heading-fnref").Chance(1, 10) // some headings end in a footnote reference
 	for i := 0; i < n; i++ {
 		t := pick(r, pool)
+		if fnRefs && strings.TrimSpace(t) != "" && r.Chance(1, 2) {
+			t += "[^1]"
+		}
 		level := r.Range(1, 6)
 		setextOK := strings.TrimSpace(t) != "" && !strings.HasPrefix(strings.TrimSpace(t), "#") && t != "-" && t != "_" && !strings.HasPrefix(t, " ")
 		var h string
@@ -731,6 +748,9 @@ func genHeadingDoc(r *Rng) []byte {
 		}
 		b.WriteString(h)
 		b.WriteString(pick(r, []string{"\n", "\n", "text\n\n", ""}))
+	}
+	if fnRefs {
+		b.WriteString("\n[^1]: note\n")
 	}
 	return []byte(b.String())
 }
@@ -844,6 +864,17 @@ func genAnyDoc(r *Rng, c *Corpus) []byte {
 func byteLevel(r *Rng, d []byte) []byte {
 	if !r.Chance(1, 8) {
 		return d
+	}
+	if rc := r.Split("lone-cr"); rc.Chance(1, 5) {
+		// some or all line endings as a lone CR (a line ending of its own in CommonMark)
+		out := append([]byte{}, d...)
+		all := rc.Chance(1, 2)
+		for i, c := range out {
+			if c == '\n' && (all || rc.Chance(1, 3)) {
+				out[i] = '\r'
+			}
+		}
+		return out
 	}
 	switch r.Intn(8) {
 	case 0:
